@@ -106,6 +106,28 @@ class Emitted:
         return names
 
 
+class OpaqueStatic:
+    """a module-level constant of the emitted code the engine cannot evaluate: any use that needs
+    its value is Unsupported (never guessed)"""
+
+    def __init__(self, name):
+        self.name = name
+
+    def __repr__(self):
+        return '<static %s>' % self.name
+
+
+def static_value(node, nm):
+    """`set([...])` / `frozenset([...])` of literals (how the code generator writes set constants)"""
+    if isinstance(node, ast.Call) and isinstance(node.func, ast.Name) and \
+            node.func.id in ('set', 'frozenset') and len(node.args) <= 1 and not node.keywords:
+        try:
+            return frozenset(ast.literal_eval(node.args[0])) if node.args else frozenset()
+        except Exception:
+            pass
+    return OpaqueStatic(nm)
+
+
 # ---------------------------------------------------------------------------
 # symbolic render state
 # ---------------------------------------------------------------------------
@@ -224,7 +246,7 @@ class K3State:
             try:
                 val = ast.literal_eval(node)
             except Exception:
-                val = ('static', nm)
+                val = static_value(node, nm)
             e[nm] = lit(val) if isinstance(val, (str, int, bool, type(None))) else VConc(val)
         for nm in self.em.module_names:
             if nm.startswith('_') and nm not in e and not nm.startswith('__'):
@@ -796,6 +818,14 @@ def k3_prims():
         classes = [getattr(builtins, _c(x)) for x in a[1:]]
         return VBool(models.sym_exc_isinstance(xs[-1], classes))
 
+    def iter_S0(I, a, k, n):
+        """the stream text at the start of the (arbitrary) loop iteration under its step contract"""
+        return VStr(I.ghost['iter_S0'])
+
+    def iter_item(I, a, k, n):
+        """iter_item(j): the j-th component of the loop target in that iteration"""
+        return I.ghost['iter_items'][_c(a[0])]
+
     def loop_failed(I, a, k, n):
         """an abstracted loop of the emitted code raised"""
         return VBool(bool(I.ghost.get('loop_failed')))
@@ -1085,7 +1115,7 @@ def k3_prims():
              scope_frame, template_pos, template_rpos, token_now, ext_count, ext_token, ext_last, ext_raised, ext_callee, ext_result, ext_arg, ext_out, ext_i18n, is_stream,
              is_rcontext, is_scope_copy, scope_arg_visible, attr_of, module_function, globals_visible,
              in_local, translate_arg, translate_result, normalize, i18n0,
-             holes_here, repeat_failed, repeat_kept, repeat_restored, loop_failed, i18n_now, i18n_at, global_now, handler_calls, handler_configured,
+             holes_here, repeat_failed, repeat_kept, repeat_restored, loop_failed, iter_S0, iter_item, i18n_now, i18n_at, global_now, handler_calls, handler_configured,
              translate_calls, quote_calls, errorinfo_of, token_at_eval, token_pos)}
 
 
